@@ -1,5 +1,11 @@
 """C08 generators: topology specs (families LAN / ROUTED / DMZ / WIFI / LOOP / RING) and operation lists.
 
+`avoid_storm=True` is the exclusion by construction used while finding C08-arp-request-loop (routers route link-layer
+broadcasts) is open: no unowned next hops / pinged addresses on a segment shared by two routing devices, two wireless
+routers instead of up to three, and at most two hosts on a LAN that has a routing device (with three, the router's
+forwarded-and-rewritten copies of flooded ARP requests corrupt switch tables and duplicate replies, so plain exchanges
+fail under signatures too generic to list).
+
 Construction-based: addresses come from a subnet plan, so every generated scenario is one the loader accepts.
 Address plan: LAN l of routing device i is 10.(i+1).(l+1).0/24 (device .1, hosts .10+) or 10.(i+1).(l+1).16/28
 (device .17, hosts .18+); transit link t is 10.200.(t+1).0/{24,28,30} (left .1, right .2); wireless backbone is
@@ -93,7 +99,7 @@ def lan_spec(draw, avoid_storm=False):
     b = _B("lan", draw(st.sampled_from([1, 2])))
     plen = draw(st.sampled_from([24, 28]))
     _net, dev_ip, hips, unused = _lan_addr(0, 0, plen)
-    n = draw(st.integers(2, 4))
+    n = draw(st.sampled_from([2, 3, 3, 4, 4]))
     sws = [b.switch()]
     if draw(st.booleans()):
         sws.append(b.switch())
@@ -126,7 +132,7 @@ def routed_spec(draw, avoid_storm=False, nr=None):
             plen = draw(st.sampled_from([24, 28]))
             net, dev_ip, hips, unused = _lan_addr(i, l, plen)
             r["ifs"].append([l + 1, dev_ip, plen])
-            nh = draw(st.integers(1, 2))
+            nh = draw(st.sampled_from([1, 2] if avoid_storm else [1, 1, 2, 2, 3]))
             names = b.attach_lan(draw, r["name"], l + 1, dev_ip, hips, plen, unused, nh)
             lans.append({"r": i, "net": net, "plen": plen, "hosts": names, "host_ips": hips[:nh], "unused": unused,
                          "dev_ip": dev_ip})
@@ -222,7 +228,7 @@ def dmz_spec(draw, avoid_storm=False):
     plen = draw(st.sampled_from([24, 28]))
     _n, dev, hips, unused = _lan_addr(0, 0, plen)
     fw["ifs"].append([1, dev, plen])
-    b.attach_lan(draw, "fw", 1, dev, hips, plen, unused, draw(st.integers(1, 2)))
+    b.attach_lan(draw, "fw", 1, dev, hips, plen, unused, draw(st.sampled_from([1, 2] if avoid_storm else [1, 2, 2, 3])))
     if draw(st.booleans()):
         plen = draw(st.sampled_from([24, 28]))
         _n, dev, hips, unused = _lan_addr(0, 2, plen)
@@ -232,7 +238,7 @@ def dmz_spec(draw, avoid_storm=False):
         plen = draw(st.sampled_from([24, 28]))
         _n, dev, hips, unused = _lan_addr(0, 1, plen)
         fw["ifs"].append([2, dev, plen])
-        b.attach_lan(draw, "fw", 2, dev, hips, plen, unused, draw(st.integers(1, 2)))
+        b.attach_lan(draw, "fw", 2, dev, hips, plen, unused, draw(st.sampled_from([1, 2] if avoid_storm else [1, 2, 2, 3])))
     else:
         tpl = draw(st.sampled_from([24, 28, 30]))
         fw["ifs"].append([2, "10.200.1.1", tpl])
@@ -273,7 +279,7 @@ def wifi_spec(draw, avoid_storm=False):
         w = {"k": "wrouter", "name": f"w{i}", "ifs": [[1, f"10.250.0.{i + 1}", 24], [2, dev, plen]], "routes": [],
              "default": None, "freq": draw(st.sampled_from(["WIFI_2_4"] * 5 + ["WIFI_5"]))}
         b.spec["nodes"].append(w)
-        b.attach_lan(draw, w["name"], 2, dev, hips, plen, unused, draw(st.integers(1, 2)))
+        b.attach_lan(draw, w["name"], 2, dev, hips, plen, unused, draw(st.sampled_from([1, 2] if avoid_storm else [1, 2, 2, 3])))
         lans.append((net, plen))
     for i in range(nw):
         w = [n for n in b.spec["nodes"] if n["name"] == f"w{i}"][0]
